@@ -190,55 +190,50 @@ index pair `(m, a)` of a table `f m a`; result indexed `(m, function)` -/
 def applyW (s : Shell K) (w : Tab3 K) (f : Nat → Nat → K) (m g : Nat) : K :=
   if s.sph then sumN s.ncart fun a => w.get3 m g a * f m a else w.get3 m g g * f m g
 
+/-- weight tables of all shells of a basis -/
+def Basis.weightTabs (b : Basis K) : Tab (Tab3 K) := tab b.size fun i => match b[i]? with
+  | some s => s.weights
+  | none => tab3 0 0 0 fun _ _ _ => Num.nat 0
+
+/-- normalised and transformed block of one quartet of shells (the four index pairs are staged one after
+the other): indices `[ma][fa][mb][fb][mc][fc][md][fd]` -/
+def wBlock4 (sa sb sc sd : Shell K) (wa wb wc wd : Tab3 K) (raw : Tab8 K) : Tab8 K :=
+  let t1 : Tab8 K := tab4 sa.nseg sa.nfun sb.nseg sb.ncart fun ma fa mb cb =>
+    tab4 sc.nseg sc.ncart sd.nseg sd.ncart fun mc cc md cd =>
+      applyW sa wa (fun m a => raw.get8 m a mb cb mc cc md cd) ma fa
+  let t2 : Tab8 K := tab4 sa.nseg sa.nfun sb.nseg sb.nfun fun ma fa mb fb =>
+    tab4 sc.nseg sc.ncart sd.nseg sd.ncart fun mc cc md cd =>
+      applyW sb wb (fun m a => t1.get8 ma fa m a mc cc md cd) mb fb
+  let t3 : Tab8 K := tab4 sa.nseg sa.nfun sb.nseg sb.nfun fun ma fa mb fb =>
+    tab4 sc.nseg sc.nfun sd.nseg sd.ncart fun mc fc md cd =>
+      applyW sc wc (fun m a => t2.get8 ma fa mb fb m a md cd) mc fc
+  tab4 sa.nseg sa.nfun sb.nseg sb.nfun fun ma fa mb fb =>
+    tab4 sc.nseg sc.nfun sd.nseg sd.nfun fun mc fc md fd =>
+      applyW sd wd (fun m a => t3.get8 ma fa mb fb mc fc m a) md fd
+
+/-- normalised and transformed blocks of all quartets of shells: `[i][j][k][l]` -/
+def quartetBlocks (b1 b2 b3 b4 : Basis K) (blk : Nat → Nat → Nat → Nat → Tab8 K) :
+    Tab (Tab (Tab (Tab (Tab8 K)))) :=
+  let w1 := b1.weightTabs; let w2 := b2.weightTabs; let w3 := b3.weightTabs; let w4 := b4.weightTabs
+  tab4 b1.size b2.size b3.size b4.size fun i j k l =>
+    wBlock4 (b1.getD i default) (b2.getD j default) (b3.getD k default) (b4.getD l default)
+      (w1.get i) (w2.get j) (w3.get k) (w4.get l) (blk i j k l)
+
+/-- entry `(r1, r2, r3, r4)` of a four-index array: index `r1` is function `f` of segment `m` of shell `i` of
+`b1` (`Basis.locate`), and likewise for the other three -/
+def entry4 (b1 b2 b3 b4 : Basis K) (qb : Tab (Tab (Tab (Tab (Tab8 K))))) (r1 r2 r3 r4 : Nat) : K :=
+  let l1 := b1.locate r1; let l2 := b2.locate r2; let l3 := b3.locate r3; let l4 := b4.locate r4
+  (qb.get4 l1.1 l2.1 l3.1 l4.1).get8 l1.2.1 l1.2.2 l2.2.1 l2.2.2 l3.2.1 l3.2.2 l4.2.1 l4.2.2
+
 /-- four-index array over basis functions, chemists' order `(ab|cd)`, row-major `[i][j][k][l]`,
 index `i` running over the functions of `b1`, `j` over `b2`, `k` over `b3`, `l` over `b4`;
 every quartet of shells is computed in the orientation in which it appears -/
-def assemble4g (b1 b2 b3 b4 : Basis K) (blk : Nat → Nat → Nat → Nat → Tab8 K) : Array K := Id.run do
-  let wsOf (b : Basis K) : Tab (Tab3 K) := tab b.size fun i => match b[i]? with
-    | some s => s.weights
-    | none => tab3 0 0 0 fun _ _ _ => Num.nat 0
-  let offsOf (b : Basis K) : Array Nat := Id.run do
-    let mut o := #[]
-    let mut acc := 0
-    for s in b do
-      o := o.push acc
-      acc := acc + s.size
-    return o
-  let w1 := wsOf b1; let w2 := wsOf b2; let w3 := wsOf b3; let w4 := wsOf b4
-  let o1 := offsOf b1; let o2 := offsOf b2; let o3 := offsOf b3; let o4 := offsOf b4
+def assemble4g (b1 b2 b3 b4 : Basis K) (blk : Nat → Nat → Nat → Nat → Tab8 K) : Array K :=
+  let qb := quartetBlocks b1 b2 b3 b4 blk
   let n2 := b2.total; let n3 := b3.total; let n4 := b4.total
-  let mut out : Array K := Array.replicate (b1.total * n2 * n3 * n4) (Num.nat 0)
-  for hi : i in [0:b1.size] do
-    for hj : j in [0:b2.size] do
-      for hk : k in [0:b3.size] do
-        for hl : l in [0:b4.size] do
-          let sa := b1[i]; let sb := b2[j]; let sc := b3[k]; let sd := b4[l]
-          let raw := blk i j k l
-          -- stage the four index pairs one after the other
-          let t1 : Tab8 K := tab4 sa.nseg sa.nfun sb.nseg sb.ncart fun ma fa mb cb =>
-            tab4 sc.nseg sc.ncart sd.nseg sd.ncart fun mc cc md cd =>
-              applyW sa (w1.get i) (fun m a => raw.get8 m a mb cb mc cc md cd) ma fa
-          let t2 : Tab8 K := tab4 sa.nseg sa.nfun sb.nseg sb.nfun fun ma fa mb fb =>
-            tab4 sc.nseg sc.ncart sd.nseg sd.ncart fun mc cc md cd =>
-              applyW sb (w2.get j) (fun m a => t1.get8 ma fa m a mc cc md cd) mb fb
-          let t3 : Tab8 K := tab4 sa.nseg sa.nfun sb.nseg sb.nfun fun ma fa mb fb =>
-            tab4 sc.nseg sc.nfun sd.nseg sd.ncart fun mc fc md cd =>
-              applyW sc (w3.get k) (fun m a => t2.get8 ma fa mb fb m a md cd) mc fc
-          for ma in [0:sa.nseg] do
-            for fa in [0:sa.nfun] do
-              for mb in [0:sb.nseg] do
-                for fb in [0:sb.nfun] do
-                  for mc in [0:sc.nseg] do
-                    for fc in [0:sc.nfun] do
-                      for md in [0:sd.nseg] do
-                        for fd in [0:sd.nfun] do
-                          let v := applyW sd (w4.get l) (fun m a => t3.get8 ma fa mb fb mc fc m a) md fd
-                          let r1 := o1[i]! + ma * sa.nfun + fa
-                          let r2 := o2[j]! + mb * sb.nfun + fb
-                          let r3 := o3[k]! + mc * sc.nfun + fc
-                          let r4 := o4[l]! + md * sd.nfun + fd
-                          out := out.set! (((r1 * n2 + r2) * n3 + r3) * n4 + r4) v
-  return out
+  Array.ofFn (n := b1.total * n2 * n3 * n4) fun idx =>
+    entry4 b1 b2 b3 b4 qb (idx.val / (n2 * n3 * n4)) (idx.val / (n3 * n4) % n2) (idx.val / n4 % n3)
+      (idx.val % n4)
 
 def assemble4 (b : Basis K) (blk : Nat → Nat → Nat → Nat → Tab8 K) : Array K :=
   assemble4g b b b b blk
